@@ -146,6 +146,9 @@ class DateTimePairs(Sub):
     rule = ("random a <= b in UTC / fixed offset / naive / named zone with equal offsets and a unique end / Date, through Interval and through "
             "the helpers directly; non-trivial: day, month or time-of-day borrow occurred")
 
+    def describe(self, case):
+        return {"a_wall": T.wall_from_us(case["w1"]).isoformat(), "b_wall": T.wall_from_us(case["w2"]).isoformat(), "kind": case["kind"]}
+
     def strategy(self, ctx):
         return dt_pair_case()
 
